@@ -292,36 +292,27 @@ def check_property(w):
                  f"leakage {leak:.2e} (allowed {LEAK_MAX * k:.3f}); {k} pulse gate(s)")
 
 
-def idle_pad_points():
-    """number of zero samples `_process_idling_tlist` puts on either side of a long idle interval of a continuous pulse
-    (read from the source; 10 before fixes/C18-3.patch)"""
-    import ast
-    try:
-        tree = ast.parse(open(os.path.join(paths.REPO, "src", "qutip_qip", "compiler", "gatecompiler.py")).read())
-        for n in ast.walk(tree):
-            if isinstance(n, ast.FunctionDef) and n.name == "_process_idling_tlist":
-                ks = [c.args[2].value for c in ast.walk(n) if isinstance(c, ast.Call) and ast.unparse(c.func) == "np.linspace"
-                      and len(c.args) == 3 and isinstance(c.args[2], ast.Constant)]
-                if ks:
-                    return min(ks)
-    except Exception:
-        pass
-    return 0
-
-
 SMALL_ANGLE = 0.1
 
 
-def in_spline_ringing_class(w):
-    """recorded finding C18-3 (open while the padding has fewer than 20 samples): a superconducting-qubit circuit on two or
-    more qubits with a rotation by a small non-zero angle - its very short pulse is followed by a long idle interval on
-    which the cubic spline of the coefficient rings.  Not covered by any theorem (the theorems end at the compiled
-    samples); the MEASURED sweep leaves this class out and says so."""
+def in_short_pulse_class(w):
+    """recorded finding C18-3 (open while SCQubitsCompiler._rotation_compiler has no amplitude floor): a
+    superconducting-qubit circuit whose transpiled form has two or more pulse gates, one of them a rotation by a small
+    non-zero angle.  Its pulse is hundreds of times shorter than its neighbours; the cubic spline over the concatenated
+    samples rings into the neighbouring pulse or idle interval.  Not covered by any theorem (the theorems end at the
+    compiled samples); the random part of the MEASURED sweep leaves this class out and says so."""
     if w["dev"] != "scq":
         return False
-    used = {q for g in w["gates"] for q in list(g[1]) + list(g[2])}
-    small = any(g[0] in ("RX", "RY", "RZ", "RZX") and g[3] is not None and 0 < abs(g[3]) < SMALL_ANGLE for g in w["gates"])
-    return small and len(used) >= 2
+    try:
+        proc = make_proc("scq", w["N"], w.get("params"))
+        with warnings.catch_warnings():
+            warnings.simplefilter("ignore")
+            gs = proc.transpile(build_circuit(w["N"], w["gates"])).gates
+    except Exception:
+        return False
+    pulse = [g for g in gs if g.name not in ("GLOBALPHASE", "IDLE") and not (g.arg_value is not None and g.arg_value == 0)]
+    small = any(g.name in ("RX", "RY", "RZX") and g.arg_value is not None and 0 < abs(g.arg_value) < SMALL_ANGLE for g in pulse)
+    return small and len(pulse) >= 2
 
 
 # ------------------------------------------------------------------------------------------
@@ -360,7 +351,7 @@ class C18(PropertyCheck):
     drivers = ["drv_cqed"]
     theorems = ["QipVerif.C18." + t for t in (
         "tables_tie", "cq_rot_calibrated", "cq_exchange_compiled", "cq_iswap_calibrated", "cq_sqrtiswap_calibrated",
-        "cq_sqrtiswap_unreversed_wrong", "cq_corrections_commute", "cq_phase_accumulated", "hann_envelope", "scq_rot_calibrated",
+        "cq_sqrtiswap_unreversed_wrong", "cq_corrections_commute", "cq_regime_tests", "cq_phase_accumulated", "hann_envelope", "scq_rot_calibrated", "scq_drag_quadratures",
         "zx_strength_of_pair", "scq_rzx_calibrated", "scq_rzx_unsigned_wrong", "scq_cnot_calibrated")]
     technique = ("Lean 4: formulas, gate maps, channel tables and gate sequences of the two pulse compilers and device models "
                  "regenerated from the source with ast into functions over an abstract arithmetic (R in the theorems, IEEE "
@@ -415,10 +406,10 @@ class C18(PropertyCheck):
         "2*d*T an integer - both hold at the default parameters (-2500 / -3750 turns), and the measured fidelity collapses "
         "when they fail (g = [0.01, 0.012]: 0.05; g = 0.02: SQRTISWAP 0.0)",
         "hardware strengths are non-zero",
-        "measured sweep: while GateCompiler._process_idling_tlist pads idle intervals with fewer than 20 zero samples "
-        "(recorded finding, repair fixes/C18-3.patch) random superconducting-qubit circuits on two or more qubits that contain "
-        "a rotation by 0 < |theta| < 0.1 are left out of the random part of the sweep (cubic-spline ringing on the long idle "
-        "interval after a very short pulse; the recorded witness is replayed every run)",
+        "measured sweep: while SCQubitsCompiler._rotation_compiler has no amplitude floor for small angles (recorded finding, "
+        "repair fixes/C18-3.patch) random superconducting-qubit circuits whose transpiled form has two or more pulse gates, one of "
+        "them a rotation by 0 < |theta| < 0.1, are left out of the random part of the sweep (the cubic spline over the "
+        "concatenated samples rings next to a pulse that is hundreds of times shorter; the recorded witness is replayed every run)",
         "superconducting compiler: default args (hann, DRAG on or off); the DRAG corrections enter only the measured part",
     ]
     rule = ("case = (device, number of qubits, hardware parameter vectors, gate list with placements and angles, DRAG flag); "
@@ -435,7 +426,7 @@ class C18(PropertyCheck):
     def flags(self):
         if self.info is None:
             self.info = T.render()[2]
-        return self.info["flips"], self.info["signed"]
+        return self.info["flips"], self.info["signed"], self.info["floor"]
 
     # ---------------------------------------------------------------------------------
     def _tables_check(self, ctx, res):
@@ -575,7 +566,7 @@ class C18(PropertyCheck):
             for (n, refs, a), (mn, mr, ma, _) in zip(live_seq, mseq))
         if not okseq:
             problems.append(("cnot_compiler sequence", f["cnot"], str(live_seq)))
-        flips, signed = self.flags()
+        flips, signed, _ = self.flags()
         if f["flips"] != ("1" if flips else "0") or f["signed"] != ("1" if signed else "0"):
             problems.append(("variant flags compiled into the driver", f["flips"] + f["signed"], f"{flips} {signed}"))
         # label sets
@@ -825,10 +816,10 @@ class C18(PropertyCheck):
                 yield w, d
             if time.time() - t0 > budget_s:
                 return
-        skip = idle_pad_points() < 20
+        skip = not self.flags()[2]
         while time.time() - t0 < budget_s:
             w = self._rand_witness(ctx.rng)
-            if skip and in_spline_ringing_class(w):
+            if skip and in_short_pulse_class(w):
                 continue
             f, d = check_property(w)
             if f:
@@ -851,10 +842,10 @@ class C18(PropertyCheck):
             n += 1
             if f:
                 yield w, d
-        skip = idle_pad_points() < 20
+        skip = not self.flags()[2]
         while time.time() - t0 < budget:
             w = self._rand_witness(ctx.rng)
-            if skip and in_spline_ringing_class(w):
+            if skip and in_short_pulse_class(w):
                 continue
             f, d = check_property(w)
             n += 1
